@@ -1,10 +1,10 @@
 #!/bin/bash
 # usage: tools/round.sh <ID> <crate> [demo file]   confirm + try each /tmp/mut/<ID>/mutationN against ./check <ID> quick
 id=$1; crate=$2
-for md in /tmp/mut/$id/mutation*/; do
+for md in ${MUTROOT:-/tmp/mut}/$id/mutation*/; do
   md=${md%/}; m=$(basename $md)
   demo=${3:-$(cd $md && ls *.rs | head -1)}
   echo "== $id $m ($demo)"
-  /verif/tools/confirm_seeded.sh /tmp/mut/$id $md $crate $demo 2>&1 | head -1
+  /verif/tools/confirm_seeded.sh ${MUTROOT:-/tmp/mut}/$id $md $crate $demo 2>&1 | head -1
   /verif/tools/try_patch.sh $md/patch.diff $id 2>&1 | grep -E "^violation|try_patch|HARNESS|does not apply|dirty" | cut -c1-260
 done
